@@ -181,7 +181,7 @@ def tree_digest(d):
 
 def c20_configs(r):
     cfg = {"exhaustive": r.random() < 0.4, "serialize_empty": r.random() < 0.4,
-           "strip": r.choice([None, "com.verif", "com.verif.lab", "com"]), "crate": None}
+           "strip": r.choice([None, "com.verif", "com.verif.lab", "com", "com.verif.", "com.", "org", "com.verif.lab.sub.deep.er"]), "crate": None}
     if r.random() < 0.35:
         cfg["crate"] = (r.choice(["my-product", "lab_api", "x"]), r.choice(["1.2.3", "0.0.1-rc1"]), r.choice([None, "9.9.9"]))
     return cfg
